@@ -146,7 +146,7 @@ fn c15_one(ctx: &mut Ctx, rng: &Rng, fmt: Fmt, c: &Case) {
     if p.large_mul {
         ctx.rep.count("path.large_pow5_step");
     }
-    if p.slow_digits > if fmt.mant_bits == 52 { 769 } else { 114 } {
+    if p.slow_digits > if fmt.mant_bits == 52 { <f64 as minimal_lexical::Float>::MAX_DIGITS as u64 } else { <f32 as minimal_lexical::Float>::MAX_DIGITS as u64 } {
         ctx.rep.count("path.sticky_digit");
     }
     if c.ndigits() >= 10_000 {
